@@ -117,7 +117,10 @@ pub fn check_mixed(ctx: &mut Ctx, mixed_text: &str) {
             SerConfig { no_indent: false, prefix: None, initial: 0 },
             SerConfig { no_indent: true, prefix: None, initial: 0 },
         ] {
-            let text = format!("{}\n{}", apply_ser!(schema.serialize(), cfg), apply_ser!(doc.serialize(), cfg));
+            // Executable part first: a body-less extension at the end of the schema text
+            // (`extend enum E @d`) followed by a shorthand query (`{ a }`) would read as the
+            // extension's body — an ambiguity of the GraphQL grammar, not of the serializer.
+            let text = format!("{}\n{}", apply_ser!(doc.serialize(), cfg), apply_ser!(schema.serialize(), cfg));
             match apollo_compiler::parser::Parser::new().parse_mixed_validate(&text, "m-rt.graphql") {
                 Err(e) => f.push((
                     format!("mixed|reparse-fails|{}|{}", cfg.class(), mask_names(&first_msg(&e))),
